@@ -388,7 +388,7 @@ def corpus(rng):
 def gen_cases(rng, tier):
     cases = corpus(rng)
     cases += exhaustive_mask_cases(tier)
-    nsmall, nbig, nlossy = (2000, 150, 400) if tier == 'quick' else (30000, 2500, 8000)
+    nsmall, nbig, nlossy = (2000, 150, 400) if tier == 'quick' else (20000, 1800, 6000)
     for _ in range(nsmall):
         cases.append(gen_object(rng))
     for _ in range(nbig):
